@@ -16,8 +16,26 @@ Ltac inv_pair :=
   | H : Some _ = Some _ |- _ => inversion H; clear H; subst
   end.
 
+(* the four waker helpers as straight-line record updates *)
+Lemma register_eq {Chunk} cx (i : Inner Chunk) : register cx i = set_task (Some cx) i.
+Proof.
+  unfold register, set_task. destruct i as [ln ef er sc nr its [w|] io]; cbn; [|reflexivity].
+  destruct (cx =? w) eqn:E; cbn; [|reflexivity]. apply N.eqb_eq in E. subst. reflexivity.
+Qed.
+Lemma register_io_eq {Chunk} cx (i : Inner Chunk) : register_io cx i = set_io_task (Some cx) i.
+Proof.
+  unfold register_io, set_io_task. destruct i as [ln ef er sc nr its tk [w|]]; cbn; [|reflexivity].
+  destruct (cx =? w) eqn:E; cbn; [|reflexivity]. apply N.eqb_eq in E. subst. reflexivity.
+Qed.
+Definition olist (o : option waker) : list waker := match o with Some w => [w] | None => [] end.
+Lemma wake_eq {Chunk} (i : Inner Chunk) : wake i = (set_task None i, olist (task i)).
+Proof. unfold wake, set_task. destruct i as [ln ef er sc nr its [w|] io]; reflexivity. Qed.
+Lemma wake_io_eq {Chunk} (i : Inner Chunk) : wake_io i = (set_io_task None i, olist (io_task i)).
+Proof. unfold wake_io, set_io_task. destruct i as [ln ef er sc nr its tk [w|]]; reflexivity. Qed.
+
 Ltac unf := unfold Payload.step, on_sender, close_sender, Payload.poll_next, Payload.feed_data, feed_eof,
-  set_error, Payload.unread_data, register, register_io, wake, wake_io, set_len, set_eof, set_err,
+  set_error, Payload.unread_data in *.
+Ltac unf_set := unfold set_len, set_eof, set_err,
   set_sender_closed, set_need_read, set_items, set_task, set_io_task in *.
 
 Ltac dmh :=
@@ -27,8 +45,21 @@ Ltac dmh :=
 
 (* open one step of the system on a destructed state: every branch becomes a goal whose
    hypotheses are plain equations *)
+Ltac dmh1 :=
+  match goal with
+  | H : context [match ?x with _ => _ end] |- _ => destruct x eqn:?
+  end.
 Ltac open_step H :=
-  unf; cbn in H; dmh; inv_pair; cbn in *.
+  unf; cbn [inner sender] in H; cbv zeta in H;
+  repeat first [ progress (rewrite ?register_eq, ?register_io_eq, ?wake_eq, ?wake_io_eq in * )
+               | progress (unf_set; cbn in * )
+               | progress inv_pair
+               | dmh1 ].
+
+Ltac dmg :=
+  repeat match goal with
+  | |- context [match ?x with _ => _ end] => destruct x eqn:?
+  end; cbn in *.
 
 Section Proofs.
 Context {Chunk : Type}.
@@ -111,7 +142,7 @@ Lemma step_inv s o s' x w : step s o = (s', x, w) -> SInv s -> SInv s'.
 Proof.
   unfold SInv. intros H HI. destruct s as [[i|] snd]; cbn [inner] in HI.
   - destruct HI as [H1 H2 H3 H4]. destruct i as [ln ef er sc nr its tk io]. cbn in H1, H2, H3, H4.
-    destruct o; open_step H; try exact I;
+    destruct o; open_step H; dmg; try exact I;
       (constructor; cbn; intros; try rewrite map_app, sumN_app; cbn [map sumN];
        try congruence; try lia; auto).
   - destruct o; open_step H; exact I.
@@ -123,6 +154,29 @@ Proof. induction 1; intro HI; [exact HI | apply IHsteps; eapply step_inv; eauto]
 Lemma create_inv e : SInv (create e).
 Proof.
   unfold SInv, create, inner_new; cbn. constructor; cbn; intros; try congruence; try lia.
+Qed.
+
+(* ---------------------------------------------------------------- len accounting, no underflow *)
+
+Lemma steps_no_panic s t s' : steps s t s' -> SInv s ->
+  forall ev, In ev t -> ev_res ev <> RPanic.
+Proof.
+  induction 1 as [s0|s0 o s1 x w t s2 Hs Hst IH]; intros HI ev Hin; [inversion Hin|].
+  destruct Hin as [<-|Hin]; [|apply IH; [eapply step_inv; eauto | exact Hin]].
+  cbn. intro Hx; subst x. unfold SInv in HI. destruct s0 as [[i|] snd]; cbn [inner] in HI.
+  - destruct HI as [H1 H2 H3 H4]. destruct i as [ln ef er sc nr its tk io]. cbn in H1, H2, H3, H4.
+    destruct o; open_step Hs; try congruence. exfalso; lia.
+  - destruct o; open_step Hs; congruence.
+Qed.
+
+Theorem len_accounting e os s t : run e os = (s, t) ->
+  (forall i, inner s = Some i -> len i = sumN (map clen (items i))) /\
+  (forall ev, In ev t -> ev_res ev <> RPanic).
+Proof.
+  intro H. apply exec_steps in H. pose proof (create_inv e) as HI. split.
+  - intros i Hi. pose proof (steps_inv _ _ _ H HI) as HS. unfold SInv in HS.
+    rewrite Hi in HS. apply HS.
+  - eapply steps_no_panic; eauto.
 Qed.
 
 End Proofs.
